@@ -96,8 +96,9 @@ def conc_requests(chk):
     stag = [["valid", "stdin", "json", "-", K()], ["valid", "stdin", "csv", "-", K()], ["valid", "file", "json", "-", K()],
             ["syntax", "stdin", "json", "-", K()]]
     for n in (4, 6) if not thorough else (4, 6, 8, 12):
-        reqs.append({"op": "cli_conc", "n": n, "specs": stag, "jitter": rng.randrange(1, 10**6), "scenario": "chained-input",
-                     "chained": True})
+        # (first in the list: what they find is reproducible, so it is what the replay file should hold)
+        reqs.insert(0, {"op": "cli_conc", "n": n, "specs": stag, "jitter": rng.randrange(1, 10**6), "scenario": "chained-input",
+                        "chained": True})
     reqs.append({"op": "cli_conc", "n": 4, "specs": stag, "jitter": rng.randrange(1, 10**6), "scenario": "staggered-input",
                  "stagger_ms": 700})
     return reqs
